@@ -39,6 +39,25 @@ def variant_specs(thorough):
     return v
 
 
+def inplace_precursor(w):
+    """(world before, statements): the statements update tracked variables of `before` in place and lead to `w`"""
+    import copy
+    pre = copy.deepcopy(w)
+    stmts = []
+    for pair in pre["vars"]:
+        val = pair[1] = copy.deepcopy(pair[1])
+        if val["t"] == "list" and val["v"]:
+            last = val["v"].pop()
+            stmts.append("%s.append(%s)" % (pair[0], progs.lit(last)))
+        elif val["t"] == "dict" and val["v"]:
+            k, x = val["v"].pop()
+            stmts.append("%s[%s] = %s" % (pair[0], progs.lit(k), progs.lit(x)))
+        elif val["t"] == "tuple" and val["v"] and val["v"][0]["t"] == "list" and val["v"][0]["v"]:
+            last = val["v"][0]["v"].pop()
+            stmts.append("%s[0].append(%s)" % (pair[0], progs.lit(last)))
+    return pre, stmts
+
+
 def run(ctx):
     res = common.Result()
     rng = ctx["rng"]
@@ -60,7 +79,15 @@ def run(ctx):
             d = json.load(open(f))
             worlds.append((d["world"], d["signatures"], os.path.basename(f)))
         for i in range(nworlds):
-            worlds.append((progs.gen_world(rng), None, None))
+            gw = progs.gen_world(rng)
+            if i % 2 == 0:
+                # a tracked variable that is immutable at the top and mutable inside (a list in a tuple)
+                used = sorted({v for f in gw["funs"] for v in f.get("reads", [])})
+                for pair in gw["vars"]:
+                    if pair[0] in used:
+                        pair[1] = progs.jv("tuple", [progs.jv("list", [progs.jv("int", "3"), progs.jv("int", "4")]), progs.jv("str", "z")])
+                        break
+            worlds.append((gw, None, None))
         history_pool = [progs.gen_world(rng) for _ in range(3)]
         mreqs, mmeta = [], []
         for wi, (w, pinned, pin_name) in enumerate(worlds):
@@ -97,6 +124,20 @@ def run(ctx):
                     with open(os.path.join(d, modname + ".py"), "w") as fh:
                         fh.write(progs.render_world(w, extmod))
                 wk.call(cmd="world", dir=d, module=modname, extmod=extmod)
+                if v.get("history"):
+                    # ... and the target reached by IN-PLACE updates of its mutable tracked variables (no rebinding, no
+                    # reload) after an evaluation of the state before the updates, in this very process
+                    pre, stmts = inplace_precursor(w)
+                    if stmts:
+                        with open(os.path.join(d, modname + ".py"), "w") as fh:
+                            fh.write(progs.render_world(pre, extmod))
+                        wk.call(cmd="world", dir=d, module=modname, extmod=extmod)
+                        wk.call(cmd="run", entry=entry)
+                        with open(os.path.join(d, modname + ".py"), "w") as fh:
+                            fh.write(progs.render_world(w, extmod))
+                        for st in stmts:
+                            wk.call(cmd="exec", stmt=st)
+                        res.count("inplace_histories")
                 opts = {}
                 if v.get("extra_debug") is not None:
                     opts["extra_debug"] = v["extra_debug"]
